@@ -440,6 +440,10 @@ def classify(c, impl):
 def run(chk, replay=None):
     chk.proof_leg(MODEL_TARGETS + ["Gds/GdsPack.vo"], "Properties/C10.v", C10_PROOF_FILES, "Properties.C10")
     kernel_tie_leg(chk, "gds_read")       # GdsReader::read_record_header / read_record_content / read_record generated from gds21/src/read.rs = read_header / read_content / read_record of the reader model (Properties/KernelsGdsCodec.v)
+    kernel_tie_leg(chk, "gds_parse")      # GdsParser::parse_property / parse_strans generated from gds21/src/read.rs = the parser model (Properties/KernelsGdsCodec.v)
+    kernel_tie_leg(chk, "gds_parse_e1")   # GdsParser::parse_boundary / parse_path / parse_node / parse_box = parse_elem of Gds/GdsRead.v, fuel for fuel
+    kernel_tie_leg(chk, "gds_parse_e2")   # GdsParser::parse_struct_ref / parse_array_ref / parse_text_elem = parse_elem
+    kernel_tie_leg(chk, "gds_parse_lib")  # GdsParser::parse_struct / parse_lib (+ the generated read_record) = parse_struct / parse_lib / read_lib_fuel
     chk.assumptions += [
         "time and stack use of the implementation are measured, not proved (DESIGN.md section 4): the model-level statement is a bound on fuel / records read",
         "out-of-bounds reads cannot be expressed in the model other than as Panic (every slice is checked); the correspondence shows the impl agrees class by class",
